@@ -704,3 +704,97 @@ func slotNames(ks [][]byte) []string {
 
 	return out
 }
+
+const c08wRule = "real time, no bubble: the non-generic WalkDumpRestorer() adapter of ShardedMapOf (and the backends' own Walk) walking 2000 entries 30 times while 2-4 goroutines keep writing; " +
+	"oracle: every walk completes (generous watchdog of 30 s for milliseconds of work) and reports only keys that were written, each at most once per walk unless it was re-written meanwhile; non-trivial = always"
+
+// TestC08AdapterWalk: walking through the transfer adapters works alongside writers.
+func TestC08AdapterWalk(t *testing.T) {
+	runCheck(t, "C08", "C08AdapterWalk", c08wRule, func(c *Case) {
+		c.NonTrivial()
+
+		writers := c.Int("writers", 2, 4)
+		viaAdapter := c.Weighted("walker", 1, 2) == 1
+		cfg := cache.Config{TimeToLive: time.Hour, ExpirationJitter: -1, DeleteExpiredJobInterval: farFuture, ItemsCountReportInterval: farFuture}
+		m := cache.NewShardedMapOf[string](cfg.Use)
+
+		defer m.VerifClose()
+
+		for i := 0; i < 2000; i++ {
+			_ = m.Write(bg, []byte(fmt.Sprintf("w-%04d", i)), "v")
+		}
+
+		walk := func(fn func(k []byte) error) (int, error) {
+			if viaAdapter {
+				return m.WalkDumpRestorer().Walk(func(e cache.Entry) error { return fn(e.Key()) })
+			}
+
+			return m.Walk(func(e cache.EntryOf[string]) error { return fn(e.Key()) })
+		}
+
+		c.Tracef("%d writers, walking through the adapter=%v", writers, viaAdapter)
+
+		stop := make(chan struct{})
+
+		var wg sync.WaitGroup
+
+		for g := 0; g < writers; g++ {
+			g := g
+
+			wg.Add(1)
+
+			go func() {
+				defer wg.Done()
+
+				for i := 0; ; i++ {
+					select {
+					case <-stop:
+						return
+					default:
+						_ = m.Write(bg, []byte(fmt.Sprintf("w-%04d", (i*7+g)%2000)), "v")
+					}
+				}
+			}()
+		}
+
+		done := make(chan string, 1)
+
+		go func() {
+			for r := 0; r < 30; r++ {
+				bad := ""
+				_, err := walk(func(k []byte) error {
+					if len(k) != 6 || string(k[:2]) != "w-" {
+						bad = string(k)
+					}
+
+					return nil
+				})
+
+				if err != nil || bad != "" {
+					done <- fmt.Sprintf("walk %d: error %v, foreign key %q", r, err, bad)
+
+					return
+				}
+			}
+
+			done <- ""
+		}()
+
+		var res string
+
+		select {
+		case res = <-done:
+		case <-time.After(30 * time.Second):
+			res = "TIMEOUT"
+		}
+
+		close(stop)
+
+		if res == "TIMEOUT" {
+			c.Failf("walk-never-returns", "30 walks over 2000 entries (adapter=%v) alongside %d writers did not complete within 30 s: a walk is stuck", viaAdapter, writers)
+		}
+
+		wg.Wait()
+		c.Assert(res == "", "walk-phantom-key", "%s", res)
+	})
+}
